@@ -6,12 +6,12 @@ set_option linter.unusedSimpArgs false
 namespace BioCantor.Proofs.Query
 open BioCantor BioCantor.Spec BioCantor.Spec.Query BioCantor.Model.Query
 
-/-- modelled domain of parents (the complement are findings: F-C09b sequence-less parent, F-C08a variant members
-    rebuilt on a chunk) -/
+/-- modelled domain of parents (the complement are findings: F-C09b sequence-less parent — admitted once
+    `repairedC09b` is flipped —, F-C08a variant members rebuilt on a chunk) -/
 def ParWF (src : Source) : Prop :=
   match src.par with
   | .none => True
-  | .noseq => False
+  | .noseq => repairedC09b = true      -- as coded: F-C09b (every non-identity query raises NullSequence)
   | .whole seq => src.bounds = none ∧
       ∀ c ∈ src.children, c.kind ≠ .var ∧ ∀ g ∈ c.gcs, 0 ≤ g.start ∧ g.stop ≤ seq.length
   | .chunk cs _ => src.bounds = none ∧ 0 ≤ cs ∧ ∀ c ∈ src.children, c.kind ≠ .var
@@ -145,11 +145,16 @@ theorem members_norm_eq (src : Source) (wf : SrcWF src) (rp rp' : RPar) (hrp : r
     (liftChildP rp c).norm = (expectChild rp' c).norm :=
   liftChildP_norm_eq rp rp' hrp c (fun g hg => gc_mseq_norm src wf rp hshape c hc g hg)
 
-/-- The parent of the result for new bounds inside the source's bounds: `_subset_parent` succeeds and carries, in
-    normal form, exactly the source's sequence restricted to the new bounds. -/
+/-- with F-C09c repaired, a range reaching beyond the sequence chunk is clamped instead of losing a base -/
+def Clampable (src : Source) (bs be start stop : Int) : Prop :=
+  repairedC09c = true ∧ src.par.isChunk = true ∧ max start bs < min stop be
+
+/-- The parent of the result for new bounds inside the source's bounds (or, with F-C09c repaired, overlapping the
+    chunk): `_subset_parent` succeeds and carries, in normal form, exactly the source's sequence restricted to the
+    new bounds. -/
 theorem subsetParent_spec (src : Source) (wf : SrcWF src) (bs be : Int) (hb : selfBounds src = some (bs, be))
     (start stop : Int) (hlt : src.par.hasSeq = true → start < stop)
-    (hin : src.par.hasSeq = true → bs ≤ start ∧ stop ≤ be) :
+    (hin : src.par.hasSeq = true → (bs ≤ start ∧ stop ≤ be) ∨ Clampable src bs be start stop) :
     ∃ rp, subsetParent src start stop = .ok rp ∧ rp.norm = (expectPar src.par start stop).norm ∧
       (∀ a b, rp ≠ .chunk a b []) ∧ RPShape src rp := by
   have hpar := wf.par
@@ -158,14 +163,27 @@ theorem subsetParent_spec (src : Source) (wf : SrcWF src) (bs be : Int) (hb : se
   | none =>
     refine ⟨RPar.none, subsetParent_none src hp _ _, rfl, ?_, trivial⟩
     intro a b h; cases h
-  | noseq => rw [hp] at hpar; exact absurd hpar id
+  | noseq =>
+    rw [hp] at hpar
+    simp only at hpar
+    unfold subsetParent
+    rw [hpar]
+    by_cases he : start = stop
+    · subst he
+      refine ⟨RPar.none, subsetParentG_noseq_null _ _ src hp _, rfl, ?_, trivial⟩
+      intro a b h; cases h
+    · refine ⟨RPar.noseq, subsetParentG_noseq _ src hp _ _ he, rfl, ?_, trivial⟩
+      intro a b h; cases h
   | whole seq =>
     rw [hp] at hpar
     have hb' := selfBounds_whole hp hpar.1
     rw [hb] at hb'
     simp only [Option.some.injEq, Prod.mk.injEq] at hb'
     obtain ⟨rfl, rfl⟩ := hb'
-    have hin' := hin (by rw [hp]; rfl)
+    have hin' : 0 ≤ start ∧ stop ≤ (seq.length : Int) := by
+      rcases hin (by rw [hp]; rfl) with h | h
+      · exact h
+      · have := h.2.1; rw [hp] at this; simp [Par.isChunk] at this
     have hlt' := hlt (by rw [hp]; rfl)
     have hr : 0 ≤ start ∧ start < stop ∧ stop ≤ (seq.length : Int) := by omega
     refine ⟨_, subsetParent_whole src seq hp hpar.1 start stop hr, whole_norm_eq_expect seq start stop hr, ?_, ?_⟩
@@ -188,28 +206,47 @@ theorem subsetParent_spec (src : Source) (wf : SrcWF src) (bs be : Int) (hb : se
     rw [hb] at hb'
     simp only [Option.some.injEq, Prod.mk.injEq] at hb'
     obtain ⟨rfl, rfl⟩ := hb'
-    have hin' := hin (by rw [hp]; rfl)
     have hlt' := hlt (by rw [hp]; rfl)
-    have hr : bs ≤ start ∧ start < stop ∧ stop ≤ bs + (seq.length : Int) := by omega
-    refine ⟨_, subsetParent_chunk src bs seq hp hpar.1 hpar.2.1 start stop hr,
-      chunk_norm_eq_expect bs seq start stop hr, ?_, ?_⟩
-    · intro a b
-      by_cases hid : start = bs ∧ stop = bs + (seq.length : Int)
-      · simp only [hid, and_self, if_true]
-        intro h
+    by_cases hrange : bs ≤ start ∧ stop ≤ bs + (seq.length : Int)
+    · have hr : bs ≤ start ∧ start < stop ∧ stop ≤ bs + (seq.length : Int) := by omega
+      refine ⟨_, subsetParent_chunk src bs seq hp hpar.1 hpar.2.1 start stop hr,
+        chunk_norm_eq_expect bs seq start stop hr, ?_, ?_⟩
+      · intro a b
+        by_cases hid : start = bs ∧ stop = bs + (seq.length : Int)
+        · simp only [hid, and_self, if_true]
+          intro h
+          simp only [RPar.chunk.injEq] at h
+          have : (seq.length : Int) = 0 := by rw [h.2.2]; rfl
+          omega
+        · simp only [hid, if_false]
+          intro h
+          simp only [RPar.chunk.injEq] at h
+          have := slice_length seq (start - bs) (stop - bs) (by omega) (by omega) (by omega)
+          rw [h.2.2] at this
+          simp only [List.length_nil] at this
+          omega
+      · by_cases hid : start = bs ∧ stop = bs + (seq.length : Int)
+        · simp only [hid, and_self, if_true]; exact ⟨by omega, by rw [hp]; rfl⟩
+        · simp only [hid, if_false]; exact ⟨by omega, by rw [hp]; rfl⟩
+    · -- only possible with F-C09c repaired: the range is clamped to the chunk
+      have hcl : Clampable src bs (bs + seq.length) start stop := by
+        rcases hin (by rw [hp]; rfl) with h | h
+        · exact absurd h hrange
+        · exact h
+      obtain ⟨hC, _, hov⟩ := hcl
+      have hnid : ¬ (start = bs ∧ stop = bs + (seq.length : Int)) := by omega
+      have hmax : max start bs < min stop (bs + (seq.length : Int)) := hov
+      unfold subsetParent
+      rw [hC]
+      refine ⟨_, subsetParentG_chunk_clamped _ src bs seq hp hpar.1 hpar.2.1 start stop hmax hnid, ?_, ?_, ?_⟩
+      · unfold expectPar stretch; rfl
+      · intro a b h
         simp only [RPar.chunk.injEq] at h
-        have : (seq.length : Int) = 0 := by rw [h.2.2]; rfl
-        omega
-      · simp only [hid, if_false]
-        intro h
-        simp only [RPar.chunk.injEq] at h
-        have := slice_length seq (start - bs) (stop - bs) (by omega) (by omega) (by omega)
+        have := slice_length seq (max start bs - bs) (min stop (bs + seq.length) - bs) (by omega) (by omega) (by omega)
         rw [h.2.2] at this
         simp only [List.length_nil] at this
         omega
-    · by_cases hid : start = bs ∧ stop = bs + (seq.length : Int)
-      · simp only [hid, and_self, if_true]; exact ⟨by omega, by rw [hp]; rfl⟩
-      · simp only [hid, if_false]; exact ⟨by omega, by rw [hp]; rfl⟩
+      · exact ⟨by omega, by rw [hp]; rfl⟩
 
 end BioCantor.Proofs.Query
 
@@ -229,7 +266,7 @@ theorem buildNew_meets (src : Source) (wf : SrcWF src) (bs be : Int) (hb : selfB
     (keptM keptS : List Child) (hperm : keptM.Perm keptS) (hsub : ∀ c ∈ keptS, c ∈ src.children)
     (hnd : (keptS.map Child.guid).Nodup)
     (start stop : Int) (hlt : src.par.hasSeq = true → start < stop)
-    (hin : src.par.hasSeq = true → bs ≤ start ∧ stop ≤ be) :
+    (hin : src.par.hasSeq = true → (bs ≤ start ∧ stop ≤ be) ∨ Clampable src bs be start stop) :
     ∃ r, buildNew src keptM start stop = .ok r ∧ r.norm = (expectResult src start stop keptS).norm := by
   obtain ⟨rp, hsp, hnorm, hne, hshape⟩ := subsetParent_spec src wf bs be hb start stop hlt hin
   refine ⟨_, buildNew_eq src keptM start stop rp hsp hne
@@ -241,8 +278,7 @@ theorem buildNew_meets (src : Source) (wf : SrcWF src) (bs be : Int) (hb : selfB
 /-- T1 + T2 (position queries): on every well-formed source with bounds, for ALL ranges and flag combinations, the
     modelled `query_by_position` gives an answer the specification accepts. -/
 theorem queryByPosition_meets (src : Source) (q : PosQ) (wf : SrcWF src) (b : Int × Int)
-    (hb : selfBounds src = some b)
-    (hco : q.codingOnly = true → ∀ c ∈ src.children, c.kind ≠ .var) :
+    (hb : selfBounds src = some b) :
     okQueryByPosition src q (toAns (queryByPosition src q)) = true := by
   obtain ⟨bs, be⟩ := b
   unfold okQueryByPosition expectQueryByPosition
@@ -253,7 +289,7 @@ theorem queryByPosition_meets (src : Source) (q : PosQ) (wf : SrcWF src) (b : In
   by_cases hv : validRange bs be (optOr q.s bs) (optOr q.e be) = true
   · obtain ⟨h0, hse, h1, h2⟩ := (validRange_iff _ _ _ _).mp hv
     have hkept := queryKept_eq src (optOr q.s bs) (optOr q.e be) q.cw q.codingOnly h0 hse
-      (fun c hc => (wf.hull c hc).wf) hco
+      (fun c hc => (wf.hull c hc).wf)
     have hpermK := specFilter_perm (iterChildren_perm src) q.codingOnly q.cw (optOr q.s bs) (optOr q.e be)
     have hbnd := resultBounds_eq_model q (optOr q.s bs) (optOr q.e be) _ _ hpermK
     have hcont := resultBounds_contains q (optOr q.s bs) (optOr q.e be)
@@ -276,9 +312,9 @@ theorem queryByPosition_meets (src : Source) (q : PosQ) (wf : SrcWF src) (b : In
       obtain ⟨r, hr, hrn⟩ := buildNew_meets src wf bs be hb _ _ hpermK
         (fun c hc => (List.mem_filter.mp hc).1)
         (nodup_guid_filter wf.guids _) ns ne (fun _ => by omega)
-        (fun hs => by
+        (fun hs => Or.inl (by
           have : ¬ (ns < bs ∨ ne > be) := fun h => hex ⟨hs, h⟩
-          omega)
+          omega))
       rw [hr]
       simp only [toAns, meets, beq_iff_eq]
       exact hrn
